@@ -8,11 +8,12 @@ rm -rf $wt; git -C /repo worktree prune
 git -C /repo worktree add --detach $wt HEAD >/dev/null 2>&1 || { echo "$id: worktree failed"; exit 2; }
 res="$id:"
 ok=1
+g++ -std=c++17 -I$wt/include -pthread $demo -o $wt/demo_without 2>$wt/demo_build.log
 ( cd $wt && git apply --3way $patch >/dev/null 2>&1 || git apply $patch ) || { echo "$id: PATCH DOES NOT APPLY to current HEAD"; git -C /repo worktree remove --force $wt; exit 3; }
 git -C $wt diff HEAD -- include > $wt/applied.diff
 g++ -std=c++17 -I$wt/include -pthread $demo -o $wt/demo_with 2>$wt/demo_build.log || { res="$res demo-does-not-compile"; ok=0; }
 if [ $ok = 1 ]; then timeout 600 $wt/demo_with >/dev/null 2>&1; w=$?; else w=-1; fi
-g++ -std=c++17 -I/repo/include -pthread $demo -o $wt/demo_without 2>>$wt/demo_build.log && timeout 1800 $wt/demo_without >/dev/null 2>&1; wo=$?
+timeout 1800 $wt/demo_without >/dev/null 2>&1; wo=$?
 cmake -G Ninja -S $wt/tests -B $wt/_bt -DCMAKE_BUILD_TYPE=RelWithDebInfo -DCMAKE_CXX_FLAGS="-Wno-error" >/dev/null 2>&1
 cmake --build $wt/_bt --target unittest -j 6 >$wt/build.log 2>&1; b=$?
 if [ $b = 0 ]; then timeout 900 $wt/_bt/unittest/unittest >$wt/test.log 2>&1; t=$?; else t=-1; fi
